@@ -376,7 +376,7 @@ def run_worker(ctx):
 
             if c02.features_of(stmts, 'neutral'):
                 continue
-            axis = rng.choice(['neutral', 'case', 'escapes', 'numspell'])
+            axis = rng.choice(['neutral', 'case', 'escapes', 'numspell', 'comments', 'comments'])  # (comments also inside selectors, preludes and values)
             src, rfeats = G.render2(stmts, G.style_with(axis), ctx.rng('r', i))
             if rfeats:
                 continue
